@@ -346,7 +346,7 @@ static void pair_inspect(htp_connp_t *c, hx_obs *o, void *ctx) {
         char want[32]; snprintf(want, sizeof want, "/id-%d", i + 1);
         if (!tx->request_uri || bstr_cmp_c(tx->request_uri, want) != 0) hx_verdict_add("C04", "order", "%s: transaction %d does not carry request %s", PT.desc, i, want);
         htp_header_t *h = tx->response_headers ? htp_table_get_c(tx->response_headers, "x-id") : NULL;
-        char idv[8]; snprintf(idv, sizeof idv, "%d", i + 1);
+        char idv[16]; snprintf(idv, sizeof idv, "%d", i + 1);
         if (!h || bstr_cmp_c(h->value, idv) != 0) hx_verdict_add("C04", "pairing", "%s: transaction %d (request %s) got a response whose X-Id is not %s", PT.desc, i, want, idv);
         int ord = (int) (intptr_t) htp_tx_get_user_data(tx) - 1;
         if (ord >= 0 && ord < o->ntx) {
